@@ -15,6 +15,8 @@ raises something else than TOMLConfigError on a well-formed file (KeyError on a 
 was no wire-fencing-room loop and no test of the length / emptiness of ensemble_engines, and
 the quantis default raised IndexError on an empty interface list.
 
+a54d86e (interfaces must be numbers; an absent `shooting_moves` key reads as the empty list — in this model
+the move list of such a file simply is `[]`) is modelled by the flag `Cfg.intfNumeric` and its test.
 Later repairs of `check_config`: 971ccbc (`[current].size` must equal the number of interfaces) is
 modelled (`sizeTest`, `Cfg.curSize`; `checkAsIs` keeps the code before it as a record); adf2044 (a
 boolean `interface_cap`), d56000a (NaN in interfaces / cap / λ₋₁) and 2128e76 (a non-integer number of
@@ -65,6 +67,11 @@ structure Cfg where
       dictionary has no `[current]` table (a raw input file before `setup_config` created one).  A `[current]`
       table without a `size` key is outside the model (the library always writes it). -/
   curSize : Option Nat := none
+  /-- every interface is a TOML number (int or float, not a boolean, string or list).  When `false` the
+      entries of `interfaces` only stand for their number and their order among themselves (strings sort and
+      compare among themselves); the repaired `check_config` (/repo a54d86e) rejects such a list right
+      after the `n_ens < 2` test, so nothing after that test ever looks at the values. -/
+  intfNumeric : Bool := true
 deriving Repr, DecidableEq
 
 deriving instance DecidableEq for Except
@@ -193,6 +200,7 @@ def sizeTest (c : Cfg) : Except Err Unit :=
 def preCheck (c : Cfg) : Except Err Unit :=
   let n : Int := c.interfaces.length
   seq (rejectIf (decide (n < 2))) <|
+  seq (rejectIf (!c.intfNumeric)) <|
   seq (lm1Test c.lm1 c.interfaces) <|
   seq (rejectIf (c.quantis = some true && lm1Truthy c.lm1)) <|
   seq (rejectIf (decide (c.workers > n - 1))) <|
@@ -206,6 +214,27 @@ def preCheck (c : Cfg) : Except Err Unit :=
 
 /-- `check_config` -/
 def check (c : Cfg) : Except Err Unit := seq (preCheck c) (gromacsTest c)
+
+/-- RECORD of the code before /repo commit a54d86e: no test that the interfaces are numbers.  Faithful only
+    where the old code's comparisons were defined: interfaces of ONE mutually comparable non-numeric type
+    (strings), no `interface_cap` and no `lambda_minus_one` (a string compared with a float raised TypeError,
+    which this `Int`-typed model does not hold) — the class of the recorded witness `interfaces = ["0", "1"]`. -/
+def preCheckNoNumericTest (c : Cfg) : Except Err Unit :=
+  let n : Int := c.interfaces.length
+  seq (rejectIf (decide (n < 2))) <|
+  seq (lm1Test c.lm1 c.interfaces) <|
+  seq (rejectIf (c.quantis = some true && lm1Truthy c.lm1)) <|
+  seq (rejectIf (decide (c.workers > n - 1))) <|
+  seq (rejectIf (decide (isort c.interfaces ≠ c.interfaces))) <|
+  seq (rejectIf (decide ((distinct c.interfaces).length ≠ c.interfaces.length))) <|
+  seq (rejectIf (decide (c.interfaces.length > c.moves.length))) <|
+  seq (sizeTest c) <|
+  seq (capTest c.cap c.interfaces) <|
+  seq (roomTest c.cap c.interfaces c.moves) <|
+  engineListTest c
+
+/-- `check_config` as it was before a54d86e (on the class of inputs named above) -/
+def checkNoNumericTest (c : Cfg) : Except Err Unit := seq (preCheckNoNumericTest c) (gromacsTest c)
 
 /-- RECORD of the code before /repo commit 971ccbc: the same tests without the `[current].size` test
     (a restart state written for another number of interfaces was accepted and `load_paths` then failed) -/
@@ -343,6 +372,7 @@ def validB (c : Cfg) : Bool :=
   && (match c.curSize with
       | some s => decide (s = c.interfaces.length)
       | none => true)
+  && c.intfNumeric
 
 /-! ### initiate_ensembles -/
 
